@@ -30,7 +30,7 @@ PROPS = {
     },
     'C08': {
         'props': ['theories/Props/C08.v'], 'deps': READER_DEPS + ['theories/Theory/WriterFacts.v'],
-        'streams': ['l4-reader'],
+        'streams': ['l4-reader', 'l5-faults'],
         'trusted_base': READER_TB + ['bufio.Writer: a short write surfaces as io.ErrShortWrite from Flush (modelled)'],
         'assumptions': COMMON_ASSUME + ['OS-level behaviour appears only as: the source returned an error after k bytes / the destination accepted k bytes'],
     },
@@ -39,6 +39,18 @@ PROPS = {
         'streams': ['l5-props', 'l4-reader'],
         'trusted_base': READER_TB,
         'assumptions': COMMON_ASSUME + ['chunk and separator independence: no theorem yet; decided on the implementation by stream l5-props (every sample x chunk sizes x separators) and by model/implementation agreement under all chunkings in l4-reader'],
+    },
+    'C02': {
+        'props': ['theories/Props/C02.v'], 'deps': READER_DEPS + CODEC_DEPS + ['theories/Theory/WriterFacts.v', 'theories/Model/Writer.v', 'gen/Writer.v'],
+        'streams': ['l5-props', 'l5-reread', 'l2-tags'],
+        'trusted_base': READER_TB + ['translator reading of writer.go and of the 60 Parse/Format functions, tied by streams l2-tags / l3-write / l4-reader'],
+        'assumptions': COMMON_ASSUME + ['the stabilisation statement (second read equals first read) is decided on the implementation by streams l5-props (read-write-read) and l5-reread (over-width, blank-padded, inner-blank elements); the theorems cover: an accepted text yields a valid message, which the writer does not refuse'],
+    },
+    'C07': {
+        'props': ['theories/Props/C07.v'], 'deps': CODEC_DEPS + ['theories/Theory/WriterFacts.v', 'theories/Model/Writer.v', 'gen/Writer.v'],
+        'streams': ['l5-props', 'l3-write'],
+        'trusted_base': ['translator reading of writer.go (emission plan, Write/epilogue shape) and of the 60 Format functions', 'hand model of converters.go (Model/Converters.v)'],
+        'assumptions': COMMON_ASSUME,
     },
     'C15': {
         'props': ['theories/Props/C15.v'], 'deps': READER_DEPS,
